@@ -507,6 +507,35 @@ static bool exec_op(const vj::val &op)
             al += (i ? "," : "") + std::to_string(index(n.ov.allows(v, *n.values[i])));
         emit("\"e\":\"ov_new_var\",\"vals\":" + s + "],\"allows\":" + al + "],\"free\":" + (free_var ? "1" : "0") + ",\"ret\":" + std::to_string(v));
     }
+    else if (e == "ov_derived")
+    { // a variable whose values are controlled by the literals of another one (what a field access through an object
+      // variable creates): value vals[i] is taken exactly when the base variable takes its i-th value
+        if (!n.sat.root_level())
+            return false;
+        const var base = (var)op["base"].i();
+        size_t bi = 0;
+        while (bi < n.ov_vars.size() && n.ov_vars[bi] != base)
+            ++bi;
+        if (bi == n.ov_vars.size() || n.ov_doms[bi].size() != op["vals"].size())
+            return false;
+        std::vector<lit> lits;
+        std::vector<var_value *> vals;
+        std::vector<int> ids;
+        for (size_t i = 0; i < op["vals"].size(); ++i)
+        {
+            lits.push_back(n.ov.allows(base, *n.values.at(n.ov_doms[bi][i])));
+            ids.push_back((int)op["vals"][i].i());
+            vals.push_back(n.values.at(ids.back()).get());
+        }
+        var v = n.ov.new_var(lits, vals);
+        n.ov_vars.push_back(v);
+        n.ov_doms.push_back(ids);
+        n.stable = false;
+        std::string sv = "[";
+        for (size_t i = 0; i < ids.size(); ++i)
+            sv += (i ? "," : "") + std::to_string(ids[i]);
+        emit("\"e\":\"ov_derived\",\"base\":" + std::to_string(base) + ",\"dvals\":" + sv + "],\"ret\":" + std::to_string(v));
+    }
     else if (e == "ov_new_eq")
     {
         if (!n.sat.root_level())
@@ -936,6 +965,26 @@ struct gen
                 for (size_t j = 0; j < ln["allows"].size(); ++j)
                     add_lit(ln["allows"][j].i());
             }
+        if (use("ov") && coin(45))
+        { // two variables derived from the same base variable (they share its literals): fields reached through it
+            std::vector<size_t> cands;
+            for (size_t i = 0; i < n.ov_vars.size(); ++i)
+                if (!n.ov_free.count(n.ov_vars[i]) && n.ov_doms[i].size() >= 2)
+                    cands.push_back(i);
+            if (!cands.empty())
+            {
+                const size_t bi = cands[rnd((int)cands.size())];
+                for (int k = 0; k < 2; ++k)
+                {
+                    std::vector<long> pool = {0, 1, 2, 3};
+                    std::shuffle(pool.begin(), pool.end(), rng);
+                    std::vector<long> vals(pool.begin(), pool.begin() + n.ov_doms[bi].size());
+                    run("{\"e\":\"ov_derived\",\"base\":" + std::to_string(n.ov_vars[bi]) + ",\"vals\":" + jl(vals) + "}");
+                }
+                if (n.ov_vars.size() >= 2)
+                    run("{\"e\":\"ov_new_eq\",\"a\":" + std::to_string(n.ov_vars[n.ov_vars.size() - 2]) + ",\"b\":" + std::to_string(n.ov_vars.back()) + "}");
+            }
+        }
         if (profile == "lrabig" && lra_vars.size() >= 2)
         { // derived variables whose defining rows carry a constant term (as the executor creates them): they are pivoted later
             const size_t nplain = lra_vars.size();
